@@ -918,7 +918,7 @@ _CALL_RE = __import__("re").compile(r"([A-Za-z_][A-Za-z0-9_]*)\s*\(")
 _KW = {"if", "elif", "for", "in"}
 
 
-_SAMPLED = ("op:", "tree:", "ord:", "un:", "ctl:r", "alias:r", "slice", "sl:", "idx", "ix:", "if:", "errx", "errs")
+_SAMPLED = ("op:", "tree:", "ord:", "ctl:r", "alias:r", "slice", "sl:", "idx", "ix:", "if:", "errx", "errs")
 
 
 def v2ify(progsets, keep=1.0, seed=1):
@@ -946,7 +946,7 @@ def gen_v2shared(quick, seed):
     src = ([p for p in gen_ops(quick, seed) if p["id"].endswith((":ll", ":vv")) or p["id"].startswith(("un:", "tree:", "ord:"))
             or any(o in p["id"] for o in ASSIGNOPS)]
            + gen_slices(quick, seed) + gen_index(quick, seed) + gen_control(quick, seed) + gen_alias(quick, seed))
-    return v2ify(src, keep=0.35 if quick else 1.0, seed=seed) + v2ify(gen_errprop(quick, seed), keep=0.6 if quick else 1.0, seed=seed)
+    return v2ify(src, keep=0.6 if quick else 1.0, seed=seed) + v2ify(gen_errprop(quick, seed), keep=0.6 if quick else 1.0, seed=seed)
 
 
 def gen_errexpr(quick, seed):
